@@ -299,6 +299,18 @@ def inplace_histories(acc, source, spec, r, payload):
             good &= contract(acc, source, p2, m.ctcs[i], before.ctcs[i], False, "Constraint", "in-place ast edit vs pre-edit copy")
             good &= contract(acc, source, p2, m.ctcs[i], S.build(es).ctcs[i], True, "Constraint", "in-place ast edit vs fresh build")
             acc.count("history:in-place-ast")
+        # node attributes assigned directly (same AST object, no setter)
+        m, before = S.build(spec), S.build(spec)
+        _ = (m == before, hash(m), sorted(m.ctcs), [hash(c) for c in m.ctcs])
+        t3 = S.inplace_edit_ast(m.ctcs[i].ast, spec["ctcs"][i]["ast"], r, names + [fresh], ("AND", "OR", "IMPLIES", "EXCLUDES"))
+        if t3 is not None and str(S.build_ast(t3)).lower() != str(S.build_ast(spec["ctcs"][i]["ast"])).lower():
+            es = copy.deepcopy(spec)
+            es["ctcs"][i]["ast"] = t3
+            p2 = dict(payload, other=es, edit="in-place:ast-node")
+            good &= contract(acc, source, p2, m, before, False, "FeatureModel", "in-place node edit vs pre-edit copy")
+            good &= contract(acc, source, p2, m, S.build(es), True, "FeatureModel", "in-place node edit vs fresh build")
+            good &= contract(acc, source, p2, m.ctcs[i], before.ctcs[i], False, "Constraint", "in-place node edit vs pre-edit copy")
+            acc.count("history:in-place-ast-node")
     # (2) a feature renamed / a cardinality changed in place after comparisons
     m, before = S.build(spec), S.build(spec)
     _ = (m == before, hash(m), hash(m.root), [hash(x) for x in m.get_relations()])
